@@ -102,6 +102,9 @@ def _run(case):
             reg.append((o, ov))
     for (t, prio, k, o, ov) in case['timed']:
         def act(k=k, o=o, ov=ov):
+            if 'sch' not in box:
+                raise Violation('C18.invocations', f'a registration event of priority below 13 ran at {env.now} before the '
+                                f'event of priority 13 at the same instant that creates the scheduler')
             if k == 'reg':
                 rets.append((env.now, k, o, sch.register_object(fresh(o), (quiet if o == 'o3' else over) if ov else None)))
             else:
